@@ -10,8 +10,9 @@ dtype x shape x memory order x bit pattern) is evaluated on the real `pydra.util
  collision  (iii) all values are bucketed by hash; a bucket with two different canonical keys (type-tagged structural
                   key written from the statement) is a collision.  A collision that is fully explained by colliding
                   children of the same constructor is "derived" and attributed to its minimal colliding sub-pairs;
- context    (iv)  for every ordered pair (u, v) of a 65-value core: the hash of v alone equals the memo entry of v after
-                  hashing [u, v], (v, u), {"a": u, "b": v} with one Cache, and the result of hashing u then v with one Cache;
+ context    (iv)  for every ordered pair (u, v) of a 65-value core: the hash of v (and u) alone equals its hash taken with the
+                  Cache that has just hashed [u, v], (v, u), {"a": u, "b": v} (= the memo entry), and hashing u then v with
+                  one Cache gives the two stand-alone hashes; the container hash equals that of an equal fresh container;
  cycle            the same for the members of small cyclic structures (recursive values are supported by the code).
 
 Values whose hashing raises TypeError (unorderable mixed sets / keys) are "rejected", not violations -- but rejection
@@ -20,7 +21,6 @@ must not depend on the order either.  Names of user classes / functions are a do
 from __future__ import annotations
 import itertools
 import json
-import os
 from pathlib import Path
 
 from vt.ref import values as V
@@ -294,11 +294,11 @@ def context_eval(u_spec, v_spec, kind):
         return None
     box = {"list": [u, v], "tuple_rev": (v, u), "dict": {"a": u, "b": v}}[kind]
     whole = H(box, cache=c)
-    mv, mu = c[id(v)].hex(), c[id(u)].hex()
+    mv, mu = H(v, cache=c), H(u, cache=c)  # = the memo entries written while the container was hashed
     if mv != alone_v:
-        return f"memo of v after hashing the container is {mv}, alone {alone_v}"
+        return f"hash of v with the Cache that hashed the container is {mv}, alone {alone_v}"
     if mu != alone_u:
-        return f"memo of u after hashing the container is {mu}, alone {alone_u}"
+        return f"hash of u with the Cache that hashed the container is {mu}, alone {alone_u}"
     fresh = H({"list": [V.build(u_spec), V.build(v_spec)], "tuple_rev": (V.build(v_spec), V.build(u_spec)),
                "dict": {"b": V.build(v_spec), "a": V.build(u_spec)}}[kind])
     if fresh != whole:
@@ -310,10 +310,16 @@ def work_context(part, chunk):
     core = V.core60()
     for i, j in chunk:
         for kind in CONTEXTS:
-            txt = context_eval(core[i], core[j], kind)
+            try:
+                txt = context_eval(core[i], core[j], kind)
+            except Exception as e:  # noqa
+                txt = f"raised {type(e).__name__}: {str(e)[:200]}"
             part.case(key=("c", i, j, kind), nontrivial=i != j)
             if txt:
-                again = context_eval(core[i], core[j], kind)
+                try:
+                    again = context_eval(core[i], core[j], kind)
+                except Exception as e:  # noqa
+                    again = repr(e)
                 sig = None if again else "context-dependent-not-reproducible"
                 part.violation(sig, dict(part="context", u=core[i], v=core[j], kind=kind), f"u={core[i]} v={core[j]} in {kind}: {txt}")
     part.sample(dict(part="context", u=core[chunk[0][0]], v=core[chunk[0][1]]), cap=2)
@@ -367,7 +373,7 @@ def cycle_eval(shape, i, j, kind):
         got = (H(m[i], cache=c), H(m[j], cache=c))
     else:
         H([m[i], m[j]], cache=c)
-        got = (c[id(m[i])].hex(), c[id(m[j])].hex())
+        got = (H(m[i], cache=c), H(m[j], cache=c))
     if got != (alone[i], alone[j]):
         return f"cyclic structure '{shape}': members {i},{j} hashed with one Cache ({kind}) -> {got}, alone -> {(alone[i], alone[j])}"
     return None
